@@ -146,24 +146,29 @@ def flavor_agnostic(run_, F, pc):
 
 
 def siblings(run_, F, pc):
-    def norm_lines(f):
-        out = []
-        for l in summ.lines(summ.summarize(F, f)):
-            l = l.replace("io::eio::EIOReader", "READER").replace("io::io::IOReader", "READER")
-            l = l.replace("EIOReader{", "READER{").replace("IOReader{", "READER{")
-            l = l.replace("eio::WriteFlavor", "WRITER").replace("io::WriteFlavor", "WRITER")
-            out.append(l)
-        return sorted(out)
+    """the std and the embedded-io adapter behave the same: their public/trait methods have equivalent semantic summaries (private
+    helpers analysed in place) once the adapter type names are unified"""
+    import summ2
+    ren = glue.renames(F, pc, glue.load2("A"))
+
+    def unify(s):
+        def sub(x):
+            x = x.replace("io::eio::EIOReader", "READER").replace("io::io::IOReader", "READER").replace("EIOReader{", "READER{").replace("IOReader{", "READER{")
+            return x.replace("eio::WriteFlavor", "WRITER").replace("io::WriteFlavor", "WRITER")
+        return {"outcomes": sorted(({"text": sub(o["text"]), "when": [[[l[0], sub(l[1]), l[2]] for l in c_] for c_ in o["when"]]} for o in s["outcomes"]), key=lambda o: o["text"]),
+                "vars": {sub(k): v for k, v in (s.get("vars") or {}).items()}, "truncated": s.get("truncated", False)}
     for grp, a, b in (("de_reader", "io::io::IOReader", "io::eio::EIOReader"), ("ser_writer", "io::WriteFlavor", "eio::WriteFlavor")):
-        fa = {f.name + "/" + str(f.impl_trait): f for f in glue.fns_of_group(pc, grp) if a in (f.impl_self or "") and ("eio" not in (f.impl_self or "") or "eio" in a)}
-        fb = {f.name + "/" + str(f.impl_trait): f for f in glue.fns_of_group(pc, grp) if b in (f.impl_self or "")}
+        fns = [f for f in glue.fns_of_group(pc, grp) if glue.specified(f)]
+        fa = {f.name + "/" + str(f.impl_trait): f for f in fns if a in (f.impl_self or "") and ("eio" not in (f.impl_self or "") or "eio" in a)}
+        fb = {f.name + "/" + str(f.impl_trait): f for f in fns if b in (f.impl_self or "")}
         if a == "io::WriteFlavor":
             fa = {k: f for k, f in fa.items() if "eio" not in (f.impl_self or "")}
         for k in sorted(set(fa) | set(fb)):
             if k not in fa or k not in fb:
                 run_.bad("SIB", "%s %s" % (grp, k), "method exists in only one of the std / embedded-io adapters")
                 continue
-            la, lb = norm_lines(fa[k]), norm_lines(fb[k])
-            run_.check(la == lb, "SIB", "%s %s" % (grp, k), "std and embedded-io adapters behave differently", fa[k].where(), expected=la, found=lb,
-                       detail="std and embedded-io adapters have the same summary")
+            sa, sb = unify(summ2.summarize(F, fa[k], renames=ren)), unify(summ2.summarize(F, fb[k], renames=ren))
+            diffs = summ2.compare(sa, sb, glue.invariants_for(fa[k]))
+            run_.check(not diffs, "SIB", "%s %s" % (grp, k), "std and embedded-io adapters behave differently: %s" % (diffs[0] if diffs else ""), fa[k].where(),
+                       expected=summ2.fmt(sa).splitlines(), found=summ2.fmt(sb).splitlines(), detail="std and embedded-io adapters have equivalent summaries")
     run_.floor("SIB", 9)
